@@ -18,19 +18,25 @@ type Layout struct {
 	Trailing  int   // bytes after the last section
 	Certs     []int // dwLength of existing certificate entries (none = unsigned)
 	Big       bool  // first section is 40000 bytes instead of its RawSize
+	NumRva    int   // NumberOfRvaAndSizes (0 = 16); at least 5
+	Symbols   int   // number of COFF symbols placed after the last section / trailing data (0 = none)
 }
 
 func pat(i int) byte { return byte(i*131+17) | 1 }
 
 // Build returns the image bytes.
 func Build(l Layout) []byte {
-	optSize := 224
+	numRva := l.NumRva
+	if numRva == 0 {
+		numRva = 16
+	}
 	machine := uint16(0x14c)
 	magic := uint16(0x10b)
 	ddOff := 96
 	if l.PE32Plus {
-		optSize, machine, magic, ddOff = 240, 0x8664, 0x20b, 112
+		machine, magic, ddOff = 0x8664, 0x20b, 112
 	}
+	optSize := ddOff + 8*numRva
 	n := len(l.Secs)
 	optOff := l.Lfanew + 24
 	secTable := optOff + optSize
@@ -62,6 +68,11 @@ func Build(l Layout) []byte {
 		off += sz
 	}
 	off += l.Trailing
+	symOff := 0
+	if l.Symbols > 0 {
+		symOff = off
+		off += 18*l.Symbols + 4 // symbol records + empty string table (length field only)
+	}
 	total := off
 	certOff, certSize := 0, 0
 	if len(l.Certs) > 0 {
@@ -91,15 +102,26 @@ func Build(l Layout) []byte {
 	c := l.Lfanew + 4
 	binary.LittleEndian.PutUint16(b[c:], machine)
 	binary.LittleEndian.PutUint16(b[c+2:], uint16(n))
-	binary.LittleEndian.PutUint32(b[c+4:], 0x5eadbeef) // TimeDateStamp
-	binary.LittleEndian.PutUint32(b[c+8:], 0)          // PointerToSymbolTable
-	binary.LittleEndian.PutUint32(b[c+12:], 0)         // NumberOfSymbols
+	binary.LittleEndian.PutUint32(b[c+4:], 0x5eadbeef)         // TimeDateStamp
+	binary.LittleEndian.PutUint32(b[c+8:], uint32(symOff))     // PointerToSymbolTable
+	binary.LittleEndian.PutUint32(b[c+12:], uint32(l.Symbols)) // NumberOfSymbols
+	if l.Symbols > 0 {
+		for i := 0; i < l.Symbols; i++ {
+			r := b[symOff+18*i : symOff+18*i+18]
+			copy(r, []byte{'s', 'y', 'm', byte('0' + i%10), 0, 0, 0, 0})
+			binary.LittleEndian.PutUint32(r[8:], uint32(i)) // Value
+			binary.LittleEndian.PutUint16(r[12:], 1)        // SectionNumber
+			binary.LittleEndian.PutUint16(r[14:], 0)        // Type
+			r[16], r[17] = 2, 0                             // StorageClass external, no aux
+		}
+		binary.LittleEndian.PutUint32(b[symOff+18*l.Symbols:], 4) // string table: just its length
+	}
 	binary.LittleEndian.PutUint16(b[c+16:], uint16(optSize))
 	binary.LittleEndian.PutUint16(b[c+18:], 0x2022)
 	o := optOff
 	binary.LittleEndian.PutUint16(b[o:], magic)
 	binary.LittleEndian.PutUint32(b[o+60:], uint32(sizeOfHeaders))
-	binary.LittleEndian.PutUint32(b[o+ddOff-4:], 16) // NumberOfRvaAndSizes
+	binary.LittleEndian.PutUint32(b[o+ddOff-4:], uint32(numRva)) // NumberOfRvaAndSizes
 	// data directories: keep the pattern except entry 4
 	binary.LittleEndian.PutUint32(b[o+ddOff+32:], uint32(certOff))
 	binary.LittleEndian.PutUint32(b[o+ddOff+36:], uint32(certSize))
